@@ -286,9 +286,12 @@ def r1_keys(ctx) -> None:
             if not (rk ^ wk):
                 r.ok("C06.R1", wq, f"{cq.rsplit('.', 1)[-1]}.to_dict{sect}: keys {sorted(wk)} (writer {how_w}) = keys asked for by {rf.name} (reader {how_r})", wf.loc)
         for l_ in lost:
-            r.violation("C06.R1", wf.qual, f"if <numeric attribute>: … — {l_}", "truthiness guard on a numeric item: the legitimate value 0 is dropped from the written form and reloads as absent", wf.loc)
+            if " = None " in l_:
+                r.violation("C06.R1", wf.qual, f"if <optional attribute> is not None: … — {l_}", "the key of one item is written only when another, optional item is present: a rule without that item loses this one in the written form and reloads without it", wf.loc)
+            else:
+                r.violation("C06.R1", wf.qual, f"if <numeric attribute>: … — {l_}", "truthiness guard on a numeric item: the legitimate value 0 is dropped from the written form and reloads as absent", wf.loc)
         if not lost and how_w == "interpreted":
-            r.ok("C06.R1", wf.qual, f"{cq.rsplit('.', 1)[-1]}.to_dict: no key disappears when a numeric attribute is 0", wf.loc)
+            r.ok("C06.R1", wf.qual, f"{cq.rsplit('.', 1)[-1]}.to_dict: no key disappears when a numeric attribute is 0, and an absent optional attribute takes only its own key with it", wf.loc)
     # dates: the writer emits date.isoformat(); every such text must be accepted by the reader's patterns
     import re as _re
     gd = prog.func("sigma.rule.base.SigmaRuleBase.from_dict_common_params")
